@@ -36,6 +36,7 @@ GEO = {
     "D": dict(type="CircularRegion", cx=52, cy=38, r=10),
     "R2": dict(type="RectangularRegion", x1=65, y1=60, x2=75, y2=70),         # swallows O2
     "R3": dict(type="RectangularRegion", x1=0, y1=55, x2=20, y2=70),          # swallows O3
+    "Rneg": dict(type="RectangularRegion", x1=-40, y1=-40, x2=-20, y2=-20),   # a region at negative coordinates
     # registry / shrink catalogue
     "rA": dict(type="RectangularRegion", x1=40, y1=30, x2=60, y2=50),
     "rBig": dict(type="RectangularRegion", x1=30, y1=20, x2=70, y2=60),
@@ -58,6 +59,10 @@ POINTS = {
     "H": (Fr(121, 2), 42),  # 0.5 mm outside R (inside D)
     "Org": (0, 0),          # the bed origin: coordinates that are exactly zero
     "Q": (35, 25),          # outside R by 5 mm; (10,10)+Q lands inside R (offsets mistaken for coordinates)
+    "Ng": (-30, -30),       # negative coordinates (centre-origin beds, purge lines): inside Rneg
+    "Ngo": (-10, -3),       # negative coordinates, outside every region
+    "Eps": (Fr("39.996"), 42),      # 4 micrometres outside R's left border
+    "F3": (Fr("70.014"), Fr("65.004")),   # three decimals, outside every region
 }
 # arcs: name -> (start point, end point, I, J, clockwise); absolute mm only
 ARCS = {
@@ -584,7 +589,10 @@ class World(object):
         elif k == "ADD":
             self._api("add", ev[2], ev[1], False, st)
         elif k == "EV":
-            self._event(ev[1], st)
+            self._event(ev[1], st, payload=(ev[2] if len(ev) > 2 else None))
+        elif k == "GCODET":
+            # a command that an earlier plugin's queuing hook has rewritten: OctoPrint adds these tags
+            self._gcode(ev[1], st, tags={"source:file", "source:rewrite", "phase:queuing", "plugin:otherplugin"})
         elif k == "SET":
             self._set(ev[1], ev[2], st)
         elif k == "SETBAD":
@@ -612,7 +620,7 @@ class World(object):
         elif k == "SCRIPT":
             self._script(ev[1], ev[2], st)
         elif k == "NEWPRINT":
-            self._event("PRINT_STARTED", st)
+            self._event("PRINT_STARTED", st, payload=(ev[1] if len(ev) > 1 else None))
             # the plugin assumes firmware defaults (mm, absolute) at the start of every print; the reference
             # printers model the same convention: the machine is reset between jobs
             for pr in (self.A, self.B):
@@ -637,7 +645,7 @@ class World(object):
         return st
 
     # ---- gcode through the queuing hook
-    def _gcode(self, line, st, check=True):
+    def _gcode(self, line, st, check=True, tags=None):
         cmd = H.process_gcode_line(line)
         if not cmd:
             return None
@@ -683,7 +691,7 @@ class World(object):
         if track:
             f.k0 = self.impl_key()
         f.result = self.call(self.plugin.handleGcodeQueuing, self.comm, "queuing", cmd, None, gcode, subcode,
-                             tags=set())
+                             tags=set(tags or ()))
         if track:
             f.k1 = self.impl_key()
         f.sent = list(self.comm.sent)
@@ -762,11 +770,11 @@ class World(object):
         return f
 
     # ---- OctoPrint events
-    def _event(self, name, st, check=True):
+    def _event(self, name, st, check=True, payload=None):
         k0 = self.impl_key()
         before = self.regions_impl()
         evname = getattr(H.Events, name, name)
-        self.call(self.plugin.on_event, evname, {})
+        self.call(self.plugin.on_event, evname, dict(payload) if payload else {})
         if name == "PRINT_STARTED":
             self.m_active = True
             self.m_homed = False
@@ -967,7 +975,8 @@ class World(object):
     def _c10_check(self, st):
         snap = self.snapshot()
         used = World.restore(snap, self.cfg)
-        used._event("PRINT_STARTED", Step(None))
+        payload = self.cfg.get("c10_payload")
+        used._event("PRINT_STARTED", Step(None), payload=payload)
         # a freshly initialised plugin given the same regions and settings
         sv = pickle.loads(pickle.dumps(self.sv))
         pm = H.PluginManager()
@@ -976,7 +985,7 @@ class World(object):
         H.set_user(False)
         for r in self.m_regions:
             fresh.on_api_command("addExcludeRegion", dict(r))
-        fresh.on_event(H.Events.PRINT_STARTED, {})
+        fresh.on_event(H.Events.PRINT_STARTED, dict(payload) if payload else {})
         self.install()
         ku, kf = plugin_key_text(used.plugin), plugin_key_text(fresh)
         # The property is behavioural ("its output equals that of a freshly initialised plugin").  Equal
@@ -1595,7 +1604,7 @@ def stays_clear(w, ev):
     d = dest_of(w, ev)
     if d is None or d[0] is None:
         return True
-    return not float_inside(w.m_regions, float(d[0]), float(d[1]), margin=0.25)
+    return not float_inside(w.m_regions, float(d[0]), float(d[1]), margin=w.cfg.get("clear_margin", 0.25))
 
 
 def no_relative_disable(w, ev):
